@@ -72,7 +72,7 @@ ASSUMPTIONS = [
 ]
 PROBES = [
     "wildcard_x_string", "slice_x_string", "filter_x_string", "descendant_x_scalar", "index_x_object",
-    "filter_raised_type_error", "async_text_or_stream_document", "compound_intersect_async_store", "cancel_landed_in_getter", "error_parity_case", "in_flight_ge_3",
+    "filter_raised_type_error", "async_text_or_stream_document", "compound_intersect_async_store", "cancel_landed_in_getter", "error_parity_case", "in_flight_ge_3", "refused_query_text",
 ]
 
 ENTRIES = [
@@ -112,6 +112,11 @@ def generate(seed: int, config: str, tier: str) -> Dict[str, Any]:
     for _ in range(rng.randint(2, 6)):
         d = rng.choice(docs)
         queries.extend(gen_query.gen_queries(rng, _SCRATCH_ENV, d, 1, ctx_doc=ctxdoc, opts=opts, p_compound=0.2))
+    if rng.random() < 0.1:
+        # a text the environment refuses: the async entry points that take text must refuse it the same way
+        base = rng.choice(queries)
+        bad = rng.choice([base + "[", base + " |", "$[?nosuch(@.a)]", "$[?length(@.*) > 1]", "$[99999999999999999999]", "$..", base + "[?@.a ==]", ""])
+        queries.append(bad)
     deep = tier == "thorough"  # larger worlds in the thorough tier
     n_clients = rng.randint(1, 8 if deep else 6)
     n_jobs = rng.randint(3, 16 if deep else 10)
@@ -259,7 +264,13 @@ def execute(spec: Dict[str, Any], ctx: Ctx) -> None:
     ))
     ctx.state("env", "caching" if knobs.get("filter_caching", True) else "nocache", "typed" if knobs.get("well_typed", True) else "untyped")
     texts = plan["queries"]
-    compiled = [env.compile(t) for t in texts]
+    compiled: List[Any] = []
+    for t in texts:
+        try:
+            compiled.append(env.compile(t))
+        except Exception:  # noqa: BLE001 -- a refused text: only the entry points that take text can be given it
+            compiled.append(None)
+            ctx.count("probe.refused_query_text")
     kw: Dict[str, Any] = {"filter_context": fctx} if fctx is not None else {}
     strict_prefix = not plan["faults"]["storeerr"]
 
@@ -302,6 +313,8 @@ def execute(spec: Dict[str, Any], ctx: Ctx) -> None:
 
     def rkey(job: Dict[str, Any]) -> Tuple[str, str, int, int, str]:
         level, meth = job["entry"].split(".")
+        if level == "compiled" and compiled[job["q"] % len(texts)] is None:
+            level = "env"
         return (level, meth, job["q"] % len(texts), job["d"] % len(docs_w), job.get("form", "obj"))
 
     jobs_flat: List[Tuple[int, int, Dict[str, Any]]] = []
@@ -375,7 +388,7 @@ def execute(spec: Dict[str, Any], ctx: Ctx) -> None:
     async def run_job(ci: int, ji: int, job: Dict[str, Any]) -> None:
         qi = job["q"] % len(texts)
         di = job["d"] % len(docs_w)
-        level, meth = job["entry"].split(".")
+        level, meth = rkey(job)[:2]
         ref = refs[rkey(job)]
         desc = f"{job['entry']}({texts[qi]!r}) on document {di} ({'wrap ' + plan['wraps'][di]['mode'] if job.get('form', 'obj') == 'obj' else job['form'] + ' form'})"
         ctx.log.add("start", ci, ji, job["entry"], qi, di)
@@ -432,7 +445,11 @@ def execute(spec: Dict[str, Any], ctx: Ctx) -> None:
                     o = _obs(m)
                     ctx.switch(ci)
                     ctx.log.add("match", ci, ji, len(got_ms), "t", loop.time())
-                    if (strict_prefix or not ref.exc) and (len(got_ms) >= len(ref.ms) or o != ref.ms[len(got_ms)]):
+                    if ref.exc and len(got_ms) >= len(ref.ms):
+                        # the sync twin raised at this point; how many matches a lazy iterator hands out before
+                        # it raises is not part of the statement -- only that it does raise, with the same class
+                        ctx.count("probe.async_lazier_than_sync_before_error")
+                    elif (strict_prefix or not ref.exc) and (len(got_ms) >= len(ref.ms) or o != ref.ms[len(got_ms)]):
                         exp = ref.ms[len(got_ms)] if len(got_ms) < len(ref.ms) else None
                         raise Violation(
                             "C08.matches",
@@ -455,7 +472,7 @@ def execute(spec: Dict[str, Any], ctx: Ctx) -> None:
                     f"but the sync twin {'raises ' + ref.exc if ref.exc else 'finishes: ' + ref.show()}",
                     f"C08.errors:{got_exc}-vs-{ref.exc}",
                 )
-            if (strict_prefix or not ref.exc) and len(got_ms) != len(ref.ms):
+            if not ref.exc and len(got_ms) != len(ref.ms):
                 raise Violation(
                     "C08.matches",
                     f"{desc}: async iteration produced {len(got_ms)} matches but the sync twin produces {len(ref.ms)} ({ref.show()})",
